@@ -238,7 +238,7 @@ func (g *cgen) expr(t *Type, depth int) Expr {
 			}
 			return &Unary{Op: op, X: g.expr(t, depth-1), T: t}
 		case r < 84 && k != AbsInt && !g.noBuiltin:
-			names := []string{"abs", "min", "max", "clamp", "countOneBits", "countLeadingZeros", "countTrailingZeros", "reverseBits", "firstLeadingBit", "firstTrailingBit"}
+			names := []string{"abs", "min", "max", "clamp", "countOneBits", "countLeadingZeros", "countTrailingZeros", "reverseBits", "firstLeadingBit", "firstTrailingBit", "dot"}
 			n := names[g.intn(len(names), "cib")]
 			if k == U32 && n == "abs" {
 				n = "max"
@@ -252,6 +252,9 @@ func (g *cgen) expr(t *Type, depth int) Expr {
 				return &Builtin{Name: n, Args: []Expr{g.expr(t, depth-1), g.conv(t, depth-1)}, T: t}
 			case "clamp":
 				return &Builtin{Name: n, Args: []Expr{g.expr(t, depth-1), g.conv(t, depth-1), g.conv(t, depth-1)}, T: t}
+			case "dot":
+				vt := Vec(2+g.intn(3, "cdotn"), k)
+				return &Builtin{Name: n, Args: []Expr{g.expr(vt, depth-1), g.expr(vt, depth-1)}, T: t}
 			default:
 				return &Builtin{Name: n, Args: []Expr{g.expr(t, depth-1)}, T: t}
 			}
@@ -284,7 +287,7 @@ func (g *cgen) expr(t *Type, depth int) Expr {
 			g.class("unary-:" + k.String())
 			return &Unary{Op: "-", X: g.expr(t, depth-1), T: t}
 		case r < 84 && k == F32 && !g.noBuiltin:
-			names := []string{"abs", "min", "max", "floor", "ceil", "trunc", "round", "fract", "sign", "step", "saturate", "sqrt", "clamp", "fma", "pow", "exp2"}
+			names := []string{"abs", "min", "max", "floor", "ceil", "trunc", "round", "fract", "sign", "step", "saturate", "sqrt", "clamp", "fma", "pow", "exp2", "dot"}
 			n := names[g.intn(len(names), "cfb")]
 			if g.is("const.builtin."+n) || g.is("builtin."+n) {
 				n = "abs"
@@ -301,6 +304,9 @@ func (g *cgen) expr(t *Type, depth int) Expr {
 				return &Builtin{Name: n, Args: []Expr{g.expr(t, depth-1), a, b}, T: t}
 			case "fma":
 				return &Builtin{Name: n, Args: []Expr{g.expr(t, depth-1), g.conv(t, depth-1), g.conv(t, depth-1)}, T: t}
+			case "dot":
+				vt := Vec(2+g.intn(3, "cfdotn"), F32)
+				return &Builtin{Name: n, Args: []Expr{g.expr(vt, depth-1), g.expr(vt, depth-1)}, T: t}
 			default:
 				return &Builtin{Name: n, Args: []Expr{g.expr(t, depth-1)}, T: t}
 			}
@@ -385,6 +391,9 @@ func (g *cgen) vec(t *Type, depth int) Expr {
 		op := cmpOps[g.intn(6, "cvcmp")]
 		g.class("cmp" + op + ":vec")
 		return &Binary{Op: op, L: g.expr(Vec(t.N, k), depth-1), R: g.expr(Vec(t.N, k), depth-1), T: t}
+	case r < 94 && r >= 90 && t.S == F32 && t.N == 3 && !g.noBuiltin && !g.is("const.builtin.cross") && !g.is("builtin.cross"):
+		g.class("builtin:cross:vec")
+		return &Builtin{Name: "cross", Args: []Expr{g.expr(t, depth-1), g.expr(t, depth-1)}, T: t}
 	case r < 90:
 		g.class("select:vec")
 		return &Builtin{Name: "select", Args: []Expr{g.expr(t, depth-1), g.expr(t, depth-1), g.expr(Vec(t.N, Bool), depth-1)}, T: t}
